@@ -533,6 +533,16 @@ def M_remove(ex, n, a):
     return NotImplemented
 
 
+def M_remove_entry(ex, n, a):
+    v = recv(a)
+    if isinstance(v, MapV) and v.kind != 'set':
+        i = map_find(ex, v, a[1])
+        if i is None: return none()
+        k, c = v.entries.pop(i)
+        return some(Agg('tuple', None, 0, [k, c.v]))
+    return NotImplemented
+
+
 def M_push(ex, n, a):
     v = recv(a)
     if isinstance(v, VecV): v.items.append(a[1]); return UNIT
@@ -1567,7 +1577,7 @@ def B_set(ex, n, a):
 
 METHODS = {
     'len': [M_len], 'is_empty': [M_is_empty], 'index': [M_index], 'index_mut': [M_index], 'get': [M_get], 'get_mut': [M_get_mut],
-    'contains_key': [M_contains_key], 'contains': [M_contains], 'insert': [M_insert], 'remove': [M_remove], 'push': [M_push], 'push_back': [M_push],
+    'contains_key': [M_contains_key], 'contains': [M_contains], 'insert': [M_insert], 'remove': [M_remove], 'remove_entry': [M_remove_entry], 'push': [M_push], 'push_back': [M_push],
     'push_front': [M_push_front], 'pop': [M_pop], 'pop_back': [M_pop], 'pop_front': [M_pop_front], 'front': [M_front], 'back': [M_back],
     'first': [M_first], 'last': [M_last], 'first_key_value': [M_first_key_value], 'last_key_value': [M_last_key_value],
     'split_off': [M_split_off], 'append': [M_append], 'clear': [M_clear], 'truncate': [M_truncate], 'retain': [M_retain], 'retain_mut': [M_retain],
